@@ -3,7 +3,7 @@ CONSTANTS
   TraceFile = "trace.ndjson"
   MinTimeout = 10000
   RetrySlack = 90000
-  SchedSlack = 2000
+  SchedSlack = 5000
   GapBound <- GapBoundMs
 CONSTRAINT HighWater
 POSTCONDITION TraceAccepted
